@@ -20,9 +20,19 @@ func (e verifEx) ToPURL(p *extractor.Package) *purl.PackageURL {
 	if !e.has[p] {
 		return nil
 	}
-	return &purl.PackageURL{Type: p.Metadata.(string), Name: p.Name, Version: p.Version}
+	return &purl.PackageURL{Type: p.Metadata.(string), Name: verifPURLName(p.Name), Version: p.Version}
 }
 func (verifEx) Ecosystem(*extractor.Package) string { return "" }
+
+// verifPURLName normalises a package name the way several ecosystems do (lower case), so that the
+// PURL's name differs from the package's own name.
+func verifPURLName(name string) string {
+	b := []byte(name)
+	for i := range b {
+		b[i] = verifrt.IteByte(verifrt.And(b[i] >= 'A', b[i] <= 'Z'), b[i]+32, b[i])
+	}
+	return string(b)
+}
 
 var _ = context.Background
 
@@ -34,7 +44,7 @@ func VerifIndex() {
 	types := []string{purl.TypeGeneric, purl.TypeNPM}
 	for i := 0; i < n; i++ {
 		nb := verifrt.Byte("name")
-		verifrt.Assume(verifrt.And(nb >= 'a', nb <= 'c'))
+		verifrt.Assume(verifrt.Or(verifrt.And(nb >= 'a', nb <= 'b'), verifrt.And(nb >= 'A', nb <= 'B')))
 		p := &extractor.Package{Name: string([]byte{nb}), Version: "1", Extractor: ex, Metadata: types[verifrt.Choice("type", 2)]}
 		ex.has[p] = verifrt.Choice("hasPURL", 2) == 1
 		pkgs = append(pkgs, p)
@@ -49,14 +59,14 @@ func VerifIndex() {
 	}
 	verifrt.Assert(len(px.GetAll()) == withPURL, "GetAll returns every package that has a PURL, once")
 	for _, p := range pkgs {
-		got := px.GetSpecific(p.Name, p.Metadata.(string))
+		got := px.GetSpecific(verifPURLName(p.Name), p.Metadata.(string))
 		found := 0
 		for _, g := range got {
 			if g == p {
 				found++
 			}
 			// everything returned has the queried name and type
-			verifrt.Assert(verifrt.And(g.Name == p.Name, g.Metadata.(string) == p.Metadata.(string)), "GetSpecific returns only packages of that name and type")
+			verifrt.Assert(verifrt.And(verifrt.StrEq(verifPURLName(g.Name), verifPURLName(p.Name)), g.Metadata.(string) == p.Metadata.(string)), "GetSpecific returns only packages of that PURL name and type")
 		}
 		verifrt.Assert(found == verifrt.B2I(ex.has[p]), "a package with a PURL is returned when queried by its PURL type and name, exactly once")
 		ofType := 0
